@@ -357,3 +357,7 @@ def run(ctx):
     # the stream this property talks about is all-or-nothing: generate_dump succeeds only if its writer returned Ok (rules/c01.py rule_hard_streams)
     from rules import c01 as _c01h
     _c01h.rule_hard_streams(ctx, R="C05/hard-streams", only=('thread_list_stream::write', 'exception_stream::write'))
+    # the thread list fails as a whole when a stack or the window around the crash address cannot be read (`?` in thread_list_stream): the reader must
+    # try every strategy before it gives up (rules/families.py, reader family)
+    from rules import families as _famr
+    _famr.reader(ctx, "C05")
